@@ -15,11 +15,16 @@ ENV = dict(os.environ, GOFLAGS="-mod=mod", GOPROXY="off", GOSUMDB="off", GOTOOLC
 
 def run_one(patch):
     meta = {"property": None, "expect": None, "kind": "must-fail", "tests": "yes"}
+    if os.path.basename(patch) == "patch.diff":
+        mj = json.load(open(os.path.join(os.path.dirname(patch), "meta.json")))
+        meta["property"] = mj["property"]
     for line in open(patch):
         m = re.match(r"#\s*(\w+):\s*(.*)", line)
         if m and m.group(1) in meta:
             meta[m.group(1)] = m.group(2).strip()
     name = os.path.basename(patch)
+    if name == "patch.diff":
+        name = "seeded/" + os.path.basename(os.path.dirname(patch))
     suite = ""
     scratch = tempfile.mkdtemp(prefix="ivg-mut-", dir="/tmp")
     wt = os.path.join(scratch, "repo")
@@ -58,9 +63,9 @@ def main():
     jobs = 4
     if args[:1] == ["--jobs"]:
         jobs = int(args[1]); args = args[2:]
-    patches = sorted(glob.glob(os.path.join(VERIF, "selftest", "mutants", "*.patch")))
+    patches = sorted(glob.glob(os.path.join(VERIF, "selftest", "mutants", "*.patch"))) + sorted(glob.glob(os.path.join(VERIF, "seeded", "*", "patch.diff")))
     if args:
-        patches = [p for p in patches if any(a in os.path.basename(p) for a in args)]
+        patches = [p for p in patches if any(a in p for a in args)]
     bad = 0
     with cf.ThreadPoolExecutor(max_workers=jobs) as ex:
         for name, status, detail in ex.map(run_one, patches):
